@@ -261,7 +261,7 @@ def seal_extra(prop, tier, seed):
                     for wr in (True, False):
                         for ws in (False, True):
                             ops.append(dict(op="Rec", t=t, present=list(sub), wrapper=wr, withState=ws))
-        for n in ("authorize", "token", "rotate"):
+        for n in ("authorize", "token", "rotate", "dial", "dialtoken"):
             for ws in (False, True):
                 ops.append(dict(op="Flow", name=n, withState=ws))
         out.append(dict(id="x12_matrix", ops=ops))
